@@ -90,12 +90,12 @@ fn date_corner_strategy() -> BoxedStrategy<FaultCase> {
         .boxed()
 }
 
-/// strings that are not UTF-8, with a well-formed run of 0-80 bytes before the damage and multi-byte characters at
+/// strings that are not UTF-8 (or are, but name no zone and spell no number), with a well-formed run of 0-80 bytes before the damage and multi-byte characters at
 /// every offset of that run: what an error path that quotes or measures the readable part has to cope with
 fn bad_utf8_strategy() -> BoxedStrategy<FaultCase> {
     let a = |t: Ty| Arc::new(t);
     let tys = vec![Ty::Str, Ty::Dedup, Ty::Option(a(Ty::Str)), Ty::Vec(a(Ty::Str)), Ty::Tuple(vec![Ty::U8, Ty::Str]), Ty::Tz, Ty::BigDecimal];
-    (prop::sample::select(tys), 0usize..80, prop::sample::select(vec!["\u{e9}", "\u{20ac}", "\u{1f600}", "z"]), prop::sample::select(vec![vec![0xFFu8], vec![0xC3], vec![0x80], vec![0xE2, 0x82], vec![0xF0, 0x9F, 0x98], vec![0xED, 0xA0, 0x80]]), 0usize..6, 0usize..3)
+    (prop::sample::select(tys), 0usize..80, prop::sample::select(vec!["\u{e9}", "\u{20ac}", "\u{1f600}", "z"]), prop::sample::select(vec![vec![0xFFu8], vec![0xC3], vec![0x80], vec![0xE2, 0x82], vec![0xF0, 0x9F, 0x98], vec![0xED, 0xA0, 0x80], vec![], vec![]]), 0usize..6, 0usize..3)
         .prop_map(|(ty, ascii, wide, bad, tail, wides)| {
             let mut body: Vec<u8> = vec![b'a'; ascii];
             for _ in 0..=wides {
